@@ -54,9 +54,60 @@ def find_bodies(seg, method, top=None):
     return out
 
 
+def scan_boundaries(parent):
+    """{(variable name, loop id): (Loop, [iteration segments])} for every effect-free loop of `parent` that walks a local iterator node
+    by node while the node is expired: after it, the variable stands at the first node that is not expired (or at the end)"""
+    out = {}
+    for lp, segs in parent.loops:
+        segs2 = [s for s in segs if s.status != 'exit']
+        if not segs2 or any(s.state_effects() for s in segs2):
+            continue
+        conts = [s for s in segs2 if s.status == 'continue']
+        if not conts:
+            continue
+        names = set()
+        ok = True
+        for s in conts:
+            ex = [c for c in s.conds if c[0] == 'EXPIRED' and c[2] is True and isinstance(c[1][0], Ent) and c[1][0].kind == 'LV']
+            if not ex:
+                ok = False
+                break
+            nm = ex[0][1][0].arg
+            adv = [e for e in s.effects if e.kind == 'LOCAL' and e.loc[1] == nm and isinstance(e.val, tuple) and e.val and e.val[0] == 'adv'
+                   and e.val[1] == 1]
+            if len(adv) != 1:
+                ok = False
+                break
+            names.add(nm)
+        if ok and len(names) == 1:
+            out[(names.pop(), lp.id)] = (lp, segs)
+    return out
+
+
+def sweep_bound(s):
+    """iteration of a loop that runs a local iterator up to the boundary a preceding scan loop established: -> (var, boundary key) or None"""
+    par = s.parent
+    if par is None:
+        return None
+    bounds = scan_boundaries(par)
+    if not bounds:
+        return None
+    for c in s.conds:
+        raw, rawtruth = c[4], c[5]
+        if not (isinstance(raw, tuple) and raw and raw[0] == 'cmp' and raw[1] in ('!=', '==')):
+            continue
+        differs = (raw[1] == '!=') == bool(rawtruth)
+        for x, y in ((raw[2], raw[3]), (raw[3], raw[2])):
+            if isinstance(x, tuple) and isinstance(y, tuple) and x and y and x[0] == 'lv' and y[0] == 'lv' and len(y) > 3 and y[3] == 'post' \
+                    and (y[1], y[2]) in bounds and len(x) > 3 and x[3] == 'iter' and differs:
+                return x[1], (y[1], y[2])
+    return None
+
+
 def is_purge_iter(s):
-    """ut_map/ut_set purge iteration: EXPIRED(node) guard, unbinds exactly that node's key"""
-    if not s.conds_of('EXPIRED') and not s.conds_of('EXPIRED_STRICT'):
+    """ut_map/ut_set purge iteration: EXPIRED(node) guard (or: node before the boundary of a preceding expired-prefix scan), unbinds
+    exactly that node's key"""
+    if not s.conds_of('EXPIRED') and not s.conds_of('EXPIRED_STRICT') and sweep_bound(s) is None:
         return False
     st = s.state_effects()
     return bool(st) and all((e.kind == 'UNBIND' and e.ent.kind == 'VIA') or
@@ -109,10 +160,16 @@ def bodiless_iterations(top):
     """iterations of a loop that contains single-key operations but that do not themselves consult the index
     (an element of the range is handled without performing the single operation)"""
     out = []
+    any_body = bool(find_bodies(top, None)) if top.loops else True
     for lp, segs in top.loops:
         fs = feasible_iters(segs)
         has = [s for s in fs if s.conds_of('PRESENT') or any(find_bodies(x, None) for x in [s] if x.loops)]
         if not has:
+            if not any_body:
+                # a path of a range method on which no element ever reaches the index, yet answers are handed out per element
+                for s in fs:
+                    if s.status != 'exit' and [e for e in s.effects if e.kind in ('OUT_WR', 'OUT_CALL')]:
+                        out.append((lp, s))
             continue
         for s in fs:
             if s.status == 'exit':
